@@ -42,7 +42,7 @@ SttfKinds   == {"STTF212", "STTF424"}
 SdepKinds   == {"SDEP106", "SDEP212", "SDEP424"}
 SenseKinds  == {"STTA2", "STTA4", "STTADEP", "STTA1", "STTA0", "STTA212"} \cup SttbKinds \cup SttfKinds \cup SdepKinds
 LfKinds     == {"LF212", "LF424"}
-LdepKinds   == {"LDEPA", "LDEPF", "LDEPACT"}
+LdepKinds   == {"LDEPA", "LDEPF", "LDEPACT", "LDEPDSL", "LDEPRLS"}
 ListenKinds == {"LA2", "LA4", "LA4D", "LADEP", "LA212", "LB106"} \cup LfKinds \cup LdepKinds
 \* the frontend is closed by another thread while exchange() / sense() / listen() waits for the frontend lock
 \* ("device gone" seen at the frontend): no host command at all, the documented answer is IOError(ENODEV)
@@ -90,7 +90,7 @@ ExCmds(d, k) ==
 \*   LA4D         as LA4 but the initiator first deselects and activates again            LA212  212A listen
 \*   LB106        Type B listen           LFnnn  Type F listen: SENSF_REQ, then a Type 3 Tag command
 \*   LDEPA        NFC-DEP listen, passive 106A: ATR_REQ, DEP_REQ      LDEPF  passive 424F: ATR_REQ, PSL_REQ, DEP_REQ
-\*   LDEPACT      active mode 424F: ATR_REQ, DEP_REQ
+\*   LDEPACT      active mode 424F: ATR_REQ, DEP_REQ        LDEPDSL / LDEPRLS  passive 106A: ATR_REQ, then DSL_REQ / RLS_REQ
 Pers(d) == IF d \in {"acr122", "arygon"} THEN "pn532" ELSE d            \* the chip inside
 HasT1(d) == d \in {"pn532", "pn533", "rcs956", "arygon"}               \* InListPassiveTarget brty 4 (acr122: removed)
 BrtyB(d) == IF d = "pn531" THEN {} ELSE IF d = "pn533" THEN SttbKinds ELSE {"STTB106"}
@@ -110,13 +110,14 @@ Expect(d, k) ==
          [] d = "acr122" -> "Unsupported"                                  \* no listen mode at all
          [] d = "rcs956" /\ k \in {"LA4", "LA4D"} \cup LfKinds -> "Unsupported"
          [] d = "rcs956" /\ k = "LDEPACT" -> "NoTarget"                    \* active mode target disabled by the driver
+         [] k \in {"LDEPDSL", "LDEPRLS"} -> "NoTarget"                    \* deselected / released before any DEP_REQ
          [] OTHER -> "Target"
   ELSE IF d = "rcs380" THEN
        CASE k = "STTA0" -> "NoTarget"
          [] k \in {"STTB848", "LA212", "LB106", "LADEP"} \cup SdepKinds -> "Unsupported"
-         [] k = "LDEPACT" -> "NoTarget"                                    \* passive activation only
+         [] k \in {"LDEPACT", "LDEPDSL", "LDEPRLS"} -> "NoTarget"           \* passive activation only; deselected
          [] OTHER -> "Target"
-  ELSE CASE k = "STTA0" -> "NoTarget"
+  ELSE CASE k \in {"STTA0", "LDEPDSL", "LDEPRLS"} -> "NoTarget"
          [] k \in {"STTB848"} \cup SdepKinds -> "Unsupported"
          [] OTHER -> "Target"
 
@@ -142,6 +143,7 @@ Pn53xOpCmds(d, k) ==
     [] k = "LA4D" -> m \o init \o rats \o <<"TgResponseToInitiator", "TgInitAsTarget">> \o rats
     [] k \in LfKinds -> m \o <<"WriteRegister", "WriteRegister", "ReadRegister", "WriteRegister", "ReadFIFOLevel", "ReadFIFOData">>
     [] k = "LDEPACT" /\ d = "rcs956" -> m \o pre \o init
+    [] k \in {"LDEPDSL", "LDEPRLS"} -> m \o pre \o init \o <<atr, "TgGetInitiatorCommand">>
     [] k \in {"LDEPA", "LDEPACT"} -> m \o pre \o init \o <<atr, "TgGetInitiatorCommand", "WriteRegister">>
     [] k = "LDEPF" -> m \o pre \o init \o <<atr, "TgGetInitiatorCommand">> \o psl \o <<"TgGetInitiatorCommand", "WriteRegister">>
 
@@ -163,6 +165,7 @@ Rcs380OpCmds(k) ==
     [] k = "LDEPA" -> m \o tgs \o <<"TgCommRF", "TgSetProtocol", "TgCommRF">>
     [] k = "LDEPF" -> m \o tgs \o <<"TgCommRF", "TgSetProtocol", "TgCommRF", "TgCommRF", "TgSetRF", "TgCommRF">>
     [] k = "LDEPACT" -> m \o tgs \o <<"TgCommRF", "TgCommRF">>
+    [] k \in {"LDEPDSL", "LDEPRLS"} -> m \o tgs \o <<"TgCommRF", "TgSetProtocol", "TgCommRF", "TgCommRF">>
 
 \* udp: one datagram out = sendto, waiting for and reading one datagram = recvfrom, listen binds the port first
 UdpOpCmds(k) ==
@@ -177,6 +180,7 @@ UdpOpCmds(k) ==
     [] k \in {"LB106", "LDEPACT"} \cup LfKinds -> <<"bind">> \o rs \o <<"recvfrom">>
     [] k = "LDEPA" -> <<"bind">> \o rs \o rs \o rs \o rs \o <<"recvfrom">>
     [] k = "LDEPF" -> <<"bind">> \o rs \o rs \o rs \o <<"recvfrom">>
+    [] k \in {"LDEPDSL", "LDEPRLS"} -> <<"bind">> \o rs \o rs \o rs \o rs \o rs
 
 OpCmds(d, k) == IF k \in CloseKinds THEN <<>> ELSE IF d \in Pn53xFam THEN Pn53xOpCmds(d, k) ELSE IF d = "rcs380" THEN Rcs380OpCmds(k) ELSE UdpOpCmds(k)
 
